@@ -55,9 +55,19 @@ func RandomProgram(seed uint64, o RandomOpts) *Program {
 		p.Enums = append(p.Enums, Enum{Name: "Color", Values: []string{"COLOR_NONE", "COLOR_RED", "COLOR_BLUE", "COLOR_GREEN"}})
 	}
 	nameN := 0
+	// a shuffled pool of suffixes: alphabetical order (which `sort` follows) is unrelated to declaration
+	// order, so the members of different oneof groups and plain fields interleave
+	pool := make([]int, 200)
+	for i := range pool {
+		pool[i] = i + 1
+	}
+	for i := len(pool) - 1; i > 0; i-- {
+		j := r.n(i + 1)
+		pool[i], pool[j] = pool[j], pool[i]
+	}
 	fieldName := func() string {
 		nameN++
-		l := letters(nameN)
+		l := letters(pool[(nameN-1)%len(pool)] + 200*((nameN-1)/len(pool)))
 		switch r.n(5) {
 		case 0:
 			return "f_" + l // lower_snake
@@ -261,9 +271,21 @@ func RandomProgram(seed uint64, o RandomOpts) *Program {
 	any := func(fref) bool { return true }
 	excluded := map[string]int{}
 	c.ExcludeFields = pickSome(1+r.n(2), func(x fref) bool {
-		// never empty a message by exclusion, never exclude oneof members (keeps groups >= 2)
-		if x.f.Oneof != "" || len(x.m.Fields)-excluded[x.m.Name] < 3 {
+		// never empty a message by exclusion; a oneof member only when its group keeps >= 2 members
+		if len(x.m.Fields)-excluded[x.m.Name] < 3 {
 			return false
+		}
+		if x.f.Oneof != "" {
+			members := 0
+			for _, f := range x.m.Fields {
+				if f.Oneof == x.f.Oneof {
+					members++
+				}
+			}
+			if members < 3 || excluded["oneof:"+x.m.Name+"."+x.f.Oneof] > 0 {
+				return false
+			}
+			excluded["oneof:"+x.m.Name+"."+x.f.Oneof]++
 		}
 		excluded[x.m.Name]++
 		return true
